@@ -7,7 +7,7 @@ package ledger
 // sequence of
 //
 //	block ops   u+ / u~ / u-   create / modify / delete, in one block, the "user" resources:
-//	                           account C (funded / paid / closed), B's holding of asset X
+//	                           account C (funded / paid+rekeyed / closed), B's holding of asset X
 //	                           (opt-in+receive / receive / close-out), B's local state of
 //	                           app P (opt-in+write / write / close-out), box "k" of app P
 //	                           (create / overwrite / delete)
@@ -60,6 +60,7 @@ package ledger
 import (
 	"fmt"
 	"os"
+	"strings"
 	"sync/atomic"
 	"testing"
 	"time"
@@ -176,11 +177,16 @@ func (s *c08Sys) blockTxns(op int) []*txntest.Txn {
 			w.txBoxPut(w.A, s.app, c08BoxName, v),
 		}
 	case c08OpUModify:
+		rekeyTo := w.B // C is rekeyed to B, and back to itself the next time
+		if cur := s.h.Cur().acct[w.C]; cur.AuthAddr == w.B {
+			rekeyTo = w.C
+		}
 		return []*txntest.Txn{
 			w.txPay(w.A, w.C, 1_000_000),
 			w.txAssetXfer(w.A, w.B, s.asset, 1),
 			w.txAppCall(w.B, s.app, transactions.NoOpOC, []byte("lset"), v),
 			w.txBoxPut(w.A, s.app, c08BoxName, v),
+			w.txRekey(w.C, rekeyTo),
 		}
 	case c08OpUDelete:
 		return []*txntest.Txn{
@@ -518,6 +524,15 @@ func TestVerif_C08(t *testing.T) {
 		add(lru, "owner", c08AlphaOwner, 7, onlyPresent, c08SweepBlocks)
 	}
 	maxDepth := 0
+	var planDesc []string
+	seenDesc := map[string]bool{}
+	for _, e := range plan {
+		d := fmt.Sprintf("%s alphabet to depth %d on %s (%s, initial %v)", e.alpha, e.depth, e.cfg.Name, c08PolicyNames[e.policy], e.present)
+		if !seenDesc[d] {
+			seenDesc[d] = true
+			planDesc = append(planDesc, d)
+		}
+	}
 	var cov ve.Coverage
 	cov.Exhaustive = true
 	var tm c08Timers
@@ -572,7 +587,7 @@ explore:
 	r.Set("lookups_compared", tm.queries.Load())
 	r.Note("timing (not part of the verdict): new+setup %.2f ms x %d, op %.2f ms x %d, sweep %.2f ms x %d",
 		ms(tm.newNs.Load(), tm.news.Load()), tm.news.Load(), ms(tm.opNs.Load(), tm.ops.Load()), tm.ops.Load(), ms(tm.sweepNs.Load(), tm.sweeps.Load()), tm.sweeps.Load())
-	cov.Rule = fmt.Sprintf("BFS over all sequences (depth <= %d) of 7 block patterns (create/modify/delete user resources: account, asset holding, app local state, box; create/modify/destroy owner resources: asset params, app params, creators; unrelated payment), flush-one-round, flush-max, reloadLedger; x {LRU on,off} x {MaxAcctLookback 0,2} x {resources initially absent, present}; after every step every account/asset/app/creator/kv lookup for every known address/id/key at every round 0..latest+1 is compared with the fold of the evaluator's deltas", depth)
+	cov.Rule = fmt.Sprintf("BFS over all sequences (max depth completed %d; plan: "+strings.Join(planDesc, "; ")+") of 7 block patterns (create/modify/delete user resources: account, asset holding, app local state, box; create/modify/destroy owner resources: asset params, app params, creators; unrelated payment), flush-one-round, flush-max, reloadLedger; x {LRU on,off} x {MaxAcctLookback 0,2} x {resources initially absent, present}; after every step every account/asset/app/creator/kv lookup for every known address/id/key at every round 0..latest+1 is compared with the fold of the evaluator's deltas; evaluations = transitions executed; a distinct class = a distinct implementation state (block history, flush boundaries, delta ndeltas bookkeeping, LRU cache contents)", depth)
 	r.Assume("reference state = fold of the StateDelta returned by the real BlockEvaluator (evaluator correctness is C18-C24)")
 	r.Assume("tracker flushes are executed synchronously through trackerRegistry.produceCommittingTask + commitRound; the time-based flush heuristic is disabled; concurrent lookup-vs-commit interleavings are NOT covered (E-SCHED)")
 	r.Assume("SQLite in-memory backend; catchpoint tracking disabled; private consensus version verif-ldg-c08 (vFuture, MaxTxnLife 4, payouts off)")
